@@ -430,7 +430,7 @@ func newC14World(c *chain.Chain, n, m int64, nProv, nSameDomain, nIdle, nUnreg i
 
 func TestC14(t *testing.T) {
 	rec := ev.For("C14")
-	rec.Describe("stateful fork-mode histories (rapid state machine): 0-10 (mostly 6-10) registered providers with distinct domains that each hold a proof (populations smaller than the form size included), 0-2 sharing the prover's domain, 0-2 registered but idle, 0-2 unregistered accounts; (AttestFormSize n, AttestMinToPass m) with 0 <= m <= n <= 6; provers request attestation forms, anybody requests report forms, then arbitrary attest/report messages by named, unnamed and repeated signers and the prover itself against open, never-existing and consumed forms, second requests after consumption, height advancing between messages. Model: who really signed each open form (named providers only). Oracle on effects: after every message the LastProven / list membership of every (account,file) is compared with the state before; a change is allowed only for the pair the form is about, only through a signature of a provider named on an open, not yet consumed form, only when the distinct named signers so far (this one included) number at least m, and only in the form\u2019s own way (attestation: deadline = current height; report: removal); after such an effect the form counts as consumed whatever the code keeps in its store. A fresh form must name distinct registered providers that hold a proof, never the prover, and carry no signatures. Whether forms are kept, dropped or replaced, and whether a completed quorum acts at all, is left to the code (counted, not asserted). Non-trivial = a repeated or unnamed signature arrived before quorum; distinct = distinct traces.",
+	rec.Describe("stateful fork-mode histories (rapid state machine): 0-10 (mostly 6-10) registered providers with distinct domains that each hold a proof (populations smaller than the form size included), 0-2 sharing the prover's domain, the second prover's host drawn from plain, ported, single-label, numeric and fully qualified (trailing-dot) spellings, 0-2 registered but idle, 0-2 unregistered accounts; (AttestFormSize n, AttestMinToPass m) with 0 <= m <= n <= 6; provers request attestation forms, anybody requests report forms, then arbitrary attest/report messages by named, unnamed and repeated signers and the prover itself against open, never-existing and consumed forms, second requests after consumption, height advancing between messages. Model: who really signed each open form (named providers only). Oracle on effects: after every message the LastProven / list membership of every (account,file) is compared with the state before; a change is allowed only for the pair the form is about, only through a signature of a provider named on an open, not yet consumed form, only when the distinct named signers so far (this one included) number at least m, and only in the form\u2019s own way (attestation: deadline = current height; report: removal); after such an effect the form counts as consumed whatever the code keeps in its store. A fresh form must name distinct registered providers that hold a proof, never the prover, and carry no signatures. Whether forms are kept, dropped or replaced, and whether a completed quorum acts at all, is left to the code (counted, not asserted). Non-trivial = a repeated or unnamed signature arrived before quorum; distinct = distinct traces.",
 		"if the prover has already been removed when a quorum completes, the code errors out and keeps the form; only 'no effect' is asserted there",
 		"in three worlds of four CheckWindow is set out of reach so that reward blocks do not interfere; in the fourth (ProofWindow 4, CheckWindow 3) every listed prover keeps proving except the ones a 'lapse' action has stopped, which reward blocks then drop while forms about them are still open")
 	c := chain.New(chain.GenesisOpts{NumAccounts: 1, Balance: sdk.NewCoins(sdk.NewInt64Coin("ujkl", 1_000_000_000_000)),
@@ -444,7 +444,7 @@ func TestC14(t *testing.T) {
 		n := rapid.Int64Range(0, 6).Draw(rt, "formSize")
 		m := rapid.Int64Range(0, n).Draw(rt, "minToPass")
 		w := newC14World(c, n, m, rapid.OneOf(rapid.IntRange(6, 10), rapid.IntRange(0, 10)).Draw(rt, "providers"), rapid.IntRange(0, 2).Draw(rt, "sameDomain"), rapid.IntRange(0, 2).Draw(rt, "idle"), rapid.IntRange(0, 2).Draw(rt, "unregistered"),
-			rapid.SampledFrom([]string{"https://b.otherprover.net:3333", "https://b.otherprover.net:3333", "http://localhost:3333", "http://storage-node", "http://10.0.0.5:3333", "https://s0.dom0.com"}).Draw(rt, "proverIP"),
+			rapid.SampledFrom([]string{"https://b.otherprover.net:3333", "https://b.otherprover.net:3333", "http://localhost:3333", "http://storage-node", "http://10.0.0.5:3333", "https://s0.dom0.com", "https://b.otherprover.net.", "https://node.fq.otherprover.org.:3333"}).Draw(rt, "proverIP"),
 			rapid.IntRange(0, 2).Draw(rt, "singleLabelHosts"), rapid.IntRange(0, 3).Draw(rt, "rewardBlocksWithinReach") == 0)
 		fail := func(sig, msg string) {
 			if sig != "" {
